@@ -92,6 +92,11 @@ def patterns(depth):
         "(?:ab)*ac", "(?:a|b)*abb", "b(?:ab)*ac", "(?:a[^b])*ac", "a(?:ba)*c", "(?:ab|ac)*a", "(?:a(?:bc)*)*b", "(?:ab)*(?:ac)*b", "(?:aa|b)*ab",
         "[a-c][a-c1]*", "[^a]b", "[ab][bc]", "(?:a|[^a])b", "[^a][^b][^c]", ".[^a]", "(?:a|b|c)(?:a|b)", "a{2,3}b", "(?:ab){2}c?", "(?:a|ab)(?:c|bcd)?",
     ]
+    # classes that match NOTHING (always, or relative to a character set): the compiled machine has dead
+    # states / states without usable fan-out; every shape x dead atom x position
+    for dead in (r"[^\w\W]", "[^abc]", r"[^\s\S]"):
+        for shape in ("{D}", "a{D}", "{D}a", "a|{D}", "{D}|a", "a{D}|b", "b|a{D}", "a{D}|bc", "{D}b|ac", "(?:{D}|a)b", "{D}*a", "a{D}?b", "(?:a{D})*b", "a(?:b|{D})c", "(?:a|b{D})*c", "{D}+|ab", "ab|b{D}a|ba"):
+            sharp.append(shape.replace("{D}", dead))
     return [p for lv in levels for p in lv], sharp, transitions
 
 
